@@ -6,13 +6,13 @@ package main
 
 import (
 	"context"
-	_ "crypto/sha256"
+	"crypto"
 	"crypto/ecdsa"
 	"crypto/ed25519"
 	"crypto/elliptic"
 	"crypto/rand"
 	"crypto/rsa"
-	"crypto"
+	_ "crypto/sha256"
 	"encoding/json"
 	"fmt"
 	"os"
